@@ -144,14 +144,24 @@ def strip_comments(src):
     return "".join(out)
 
 
+# tie T: which GenEq files (regenerated definitions = model) each property relies on
+TIES = {
+    "C07": ["GenEq/GenEqTestcase", "GenEq/GenEqUtil"],
+}
+
+
 def proof_status(pid):
     """Re-check Props/<pid>.v: built, closed under the global context, no forbidden
-    vernacular in its dependency closure.  Returns dict."""
+    vernacular in its dependency closure; plus the GenEq files of TIES.  Returns dict."""
     target = f"Props/{pid}"
     res = {"target": target + ".v", "built": False, "closed": False, "axioms": [],
            "obligations": 0, "discharged": 0, "theorems": [], "files": [], "forbidden": [],
            "broken": []}
     files = deps_of(target)
+    for tie in TIES.get(pid, []):
+        for f in deps_of(tie):
+            if f not in files:
+                files.append(f)
     res["files"] = files
     names = []
     for f in files:
@@ -160,15 +170,18 @@ def proof_status(pid):
             res["broken"].append(f + " (missing)")
             continue
         src = strip_comments(open(p).read())
-        inside_section = 0
         for m in FORBIDDEN.finditer(src):
             w = m.group(0)
             if w in ("Variable", "Variables", "Hypothesis", "Hypotheses"):
-                # allowed inside a Section only
-                before = src[:m.start()]
-                if len(re.findall(r"^\s*Section\s", before, re.M)) > len(
-                        re.findall(r"^\s*End\s", before, re.M)) - len(
-                        re.findall(r"^\s*Module\s", before, re.M)):
+                # allowed inside a Section only: replay Section/End nesting up to this point
+                stack = []
+                for mm in re.finditer(r"^\s*(Section|Module|End)\s+([A-Za-z0-9_']+)", src[:m.start()], re.M):
+                    if mm.group(1) == "End":
+                        if stack:
+                            stack.pop()
+                    else:
+                        stack.append(mm.group(1))
+                if "Section" in stack:
                     continue
             res["forbidden"].append(f"{f}: {w}")
         stm = STMT.findall(src)
@@ -181,8 +194,8 @@ def proof_status(pid):
     broken_files = set(b.split(" ")[0] for b in res["broken"])
     res["discharged"] = sum(1 for f, _ in names if f not in broken_files)
     res["theorems"] = [n for f, n in names if f == target + ".v"]
-    res["built"] = vo_ok(target)
-    if res["built"]:
+    res["built"] = vo_ok(target) and all(vo_ok(t) for t in TIES.get(pid, []))
+    if vo_ok(target):
         r = subprocess.run(["coqc"] + QFLAGS + [target + ".v"], cwd=COQ, capture_output=True,
                            text=True, timeout=900, check=False)
         out = r.stdout
